@@ -406,6 +406,7 @@ func runC16(c *runCtx) {
 					}
 					if g := clampInt(spec.GapsMs[k%len(spec.GapsMs)], 0, 15000); g > 0 && k < 6 {
 						time.Sleep(time.Duration(g) * time.Millisecond)
+						zsim.Yield("http-client-wake")
 						if g > 9000 {
 							c.count("fault.http_stall_past_timeout", 1)
 						}
@@ -437,6 +438,7 @@ func runC16(c *runCtx) {
 			if spec.StallMs > 0 {
 				// a client that has gone to sleep with the connection open
 				time.Sleep(time.Duration(clampInt(spec.StallMs, 0, 600000)) * time.Millisecond)
+				zsim.Yield("http-client-wake")
 				c.count("fault.http_client_stalls_before_reading", 1)
 			}
 			// read the response until the server closes (or give up after 30 simulated seconds)
